@@ -2,7 +2,8 @@
 
 Decides: context args in the hash input but not in the body call (R1); inherit iff unset, replace
 never merge (R2); the frame carries the updated context (R3); the prevent-flag raise dominates the
-dispatch (R4); sibling reference constructions agree (R5).
+dispatch (R4); sibling reference constructions agree (R5); the frame leaves the call stack on every way
+out of its invocation (R6).
 
 The clauses are decided on meanings, not spellings: objects are followed through aliases to the
 definition that created them (`origin`), guards are read off the path conditions (`FA.conditions`)
@@ -484,6 +485,118 @@ def is_copy_of(e):
     return None
 
 
+def _class_of_ctor(ck, fa, call):
+    """the class of the repository a call `C(...)` constructs, or None"""
+    f = call.func
+    if not isinstance(f, ast.Name):
+        return None
+    ci = fa.fi.module.classes.get(f.id)
+    if ci is None:
+        named = ck.repo.classes_named(f.id)
+        ci = named[0] if len(named) == 1 and f.id in (getattr(fa.fi.module, "imports", {}) or {}) else None
+    return ci
+
+
+def ctor_fields(ck, fa, call):
+    """{field: argument expression} for a call that constructs an object of a class of the repository: the fields that
+    are bound to a constructor argument as it is and stay bound to it — a dataclass / NamedTuple field, or `self.f = p`
+    written once, unconditionally, in __init__ — and that no method of the class re-binds.  Other fields are left out."""
+    ci = _class_of_ctor(ck, fa, call)
+    if ci is None or any(isinstance(a, ast.Starred) for a in call.args) or any(k.arg is None for k in call.keywords):
+        return {}
+    init = ci.methods.get("__init__")
+    binding = {}    # field -> parameter
+    if init is not None:
+        params = init.params[1:]
+        va = init.node.args
+        if va.vararg is not None or va.kwarg is not None:
+            return {}
+        count = {}
+        for n in ast.walk(init.node):
+            if isinstance(n, ast.Attribute) and isinstance(n.ctx, (ast.Store, ast.Del)) and A.dotted(n.value) == "self":
+                count[n.attr] = count.get(n.attr, 0) + 1
+        for st in init.node.body:
+            if isinstance(st, ast.AnnAssign) and st.value is not None:
+                tg, v = [st.target], st.value
+            elif isinstance(st, ast.Assign):
+                tg, v = st.targets, st.value
+            else:
+                continue
+            for t in tg:
+                if isinstance(t, ast.Attribute) and A.dotted(t.value) == "self" and isinstance(v, ast.Name) and v.id in params and count.get(t.attr) == 1 \
+                        and not any(isinstance(x, ast.Name) and x.id == v.id and isinstance(x.ctx, ast.Store) for x in ast.walk(init.node)):
+                    binding[t.attr] = v.id
+    else:
+        decos = {A.dotted(d.func if isinstance(d, ast.Call) else d) for d in ci.node.decorator_list}
+        bases = {A.dotted(b) for b in ci.node.bases}
+        if not (decos & {"dataclass", "dataclasses.dataclass"} or bases & {"NamedTuple", "typing.NamedTuple"}) \
+                or (bases - {"NamedTuple", "typing.NamedTuple", "object"}):
+            return {}
+        params = [st.target.id for st in ci.node.body if isinstance(st, ast.AnnAssign) and isinstance(st.target, ast.Name)
+                  and "ClassVar" not in A.norm(st.annotation)]
+        binding = {p_: p_ for p_ in params}
+    for name, m in ci.methods.items():
+        if name == "__init__":
+            continue
+        for n in ast.walk(m.node):
+            if isinstance(n, ast.Attribute) and isinstance(n.ctx, (ast.Store, ast.Del)) and n.attr in binding:
+                binding.pop(n.attr)
+    out = {}
+    for f_, p_ in binding.items():
+        v = A.kwarg(call, p_)
+        if v is None and p_ in params and params.index(p_) < len(call.args):
+            v = call.args[params.index(p_)]
+        if v is not None:
+            out[f_] = v
+    return out
+
+
+def resolve_object_fields(ck, fa, expr, at):
+    """`expr` with every read `x.f` of a field of an object that this function constructed (a method object, a record
+    of the invocation: `x = C(..., f=v, ...)`) replaced by the argument the field was bound to, provided nothing —
+    neither the class nor this function — re-binds that field.  The argument is expanded where the object is made."""
+    stored = {n.attr for n in ast.walk(fa.node) if isinstance(n, ast.Attribute) and isinstance(n.ctx, (ast.Store, ast.Del))}
+
+    class T(ast.NodeTransformer):
+        def visit_Attribute(self, n):
+            self.generic_visit(n)
+            if isinstance(n.ctx, ast.Load) and isinstance(strip_cast(n.value), ast.Call) and n.attr not in stored:
+                # (the expansion has already put the constructing call in the place of the local)
+                fields = ctor_fields(ck, fa, strip_cast(n.value))
+                if n.attr in fields:
+                    return strip_cast(fields[n.attr])
+            if isinstance(n.ctx, ast.Load) and isinstance(n.value, ast.Name) and n.attr not in stored:
+                o = origin(fa, n.value, at)
+                v = strip_cast(o.value) if o is not None and o.value is not None else None
+                if isinstance(v, ast.Call):
+                    fields = ctor_fields(ck, fa, v)
+                    if n.attr in fields:
+                        try:
+                            return strip_cast(fa.expand(fields[n.attr], o.node))
+                        except AnalysisError:
+                            return copy.deepcopy(fields[n.attr])
+            return n
+
+    return ast.fix_missing_locations(T().visit(copy.deepcopy(expr)))
+
+
+def body_call(ck, rl):
+    """(FA, call): the one place where the function body is run (`<memento_fn>._filter_call(...)`), in memento_run_local
+    itself or in a function defined inside it (a closure / generator the invocation is written with)."""
+    found = [(rl, c) for c in rl.calls("_filter_call")]
+
+    def rec(fi):
+        for nf in fi.nested.values():
+            nfa = FA(ck, nf)
+            found.extend((nfa, c) for c in nfa.calls("_filter_call"))
+            rec(nf)
+
+    rec(rl.fi)
+    if len(found) != 1:
+        raise AnalysisError("%s: expected exactly one _filter_call (function body) call, found %d" % (rl.qual, len(found)))
+    return found[0]
+
+
 class FlatInit:
     """FunctionReferenceWithArguments.__init__ with its private helpers flattened in, and the objects the
     key is made of: `ek` (the definition creating what self.effective_kwargs finally holds), `hk` (the
@@ -620,12 +733,74 @@ def _immutable_constant(v):
     return False
 
 
-def outliving_state_reads(fa, expr, at):
+# library decorators that make a function answer from what it computed for an earlier call (by `==` / hash of the
+# arguments: 1, 1.0 and True are one entry)
+RESULT_KEEPERS = {"functools.lru_cache", "functools.cache", "functools.cached_property", "cachetools.cached", "cachetools.cachedmethod"}
+
+
+def keeps_results(fi):
+    """the decorator of function `fi` that keeps its results between calls (a text), or None; the decorator is
+    identified through the module's import table, whatever local name it goes by"""
+    imports = {}
+    for n in ast.walk(fi.module.tree):
+        # (an import written inside a class or function body binds the name just the same)
+        if isinstance(n, ast.Import):
+            for a in n.names:
+                imports.setdefault(a.asname or a.name.split(".")[0], a.name if a.asname else a.name.split(".")[0])
+        elif isinstance(n, ast.ImportFrom):
+            for a in n.names:
+                imports.setdefault(a.asname or a.name, ("." * n.level) + (n.module or "") + ":" + a.name)
+    imports.update(getattr(fi.module, "imports", {}) or {})
+    for d in fi.node.decorator_list:
+        f = d.func if isinstance(d, ast.Call) else d
+        dotted = A.dotted(f)
+        if not dotted:
+            continue
+        head, _, rest = dotted.partition(".")
+        org = imports.get(head)
+        if org is None:
+            continue
+        full = org.replace(":", ".") + ("." + rest if rest else "")
+        if full.lstrip(".") in RESULT_KEEPERS:
+            return ast.unparse(d)
+    return None
+
+
+def _frozen_table(v, _top=True):
+    """a value that cannot change once made: a constant, a reference to a named object (a type, a function), or a tuple /
+    frozenset of such — a dispatch table written as a tuple of (type, handler) pairs is a constant of the program"""
+    v = strip_cast(v)
+    if _immutable_constant(v):
+        return True
+    if not _top and (isinstance(v, ast.Name) or (isinstance(v, ast.Attribute) and A.dotted(v) is not None)):
+        return True     # (an entry that names an object; a variable that is just another name for an object is not a table)
+    if isinstance(v, ast.Tuple):
+        return all(_frozen_table(x, False) for x in v.elts)
+    if isinstance(v, ast.Call) and isinstance(v.func, ast.Name) and v.func.id in ("frozenset", "tuple") and not v.keywords \
+            and all(isinstance(a, (ast.Tuple, ast.List, ast.Set)) and all(_frozen_table(x, False) for x in a.elts) for a in v.args):
+        return True
+    return False
+
+
+def _class_constant(mod, ci, attr):
+    """is `attr` of class `ci` bound once, in the class body, to a value that cannot change, and stored to nowhere in the module?"""
+    vals = [st.value for st in ci.node.body
+            if (isinstance(st, ast.Assign) and any(isinstance(t, ast.Name) and t.id == attr for t in st.targets))
+            or (isinstance(st, ast.AnnAssign) and isinstance(st.target, ast.Name) and st.target.id == attr and st.value is not None)]
+    if len(vals) != 1 or not _frozen_table(vals[0]):
+        return False
+    return not any(isinstance(n, ast.Attribute) and n.attr == attr and isinstance(n.ctx, (ast.Store, ast.Del)) for n in ast.walk(mod.tree)) \
+        and not any(isinstance(n, ast.Call) and isinstance(n.func, ast.Name) and n.func.id in ("setattr", "delattr") for n in ast.walk(mod.tree))
+
+
+def outliving_state_reads(fa, expr, at, _depth=2, _seen=()):
     """What the value of `expr` (at CFG node `at`) is read from that outlives the call and can be rebound or
     changed by another one: names the function declares global / nonlocal and reads before it has assigned them,
     module-level variables that some function rebinds or that hold a mutable object, attributes of a class
-    (through its name, `type(x)` or `x.__class__`).  Module-level functions, classes, imports and constants that
-    are never rebound are not state.  Returns the sorted list of such names."""
+    (through its name, `type(x)` or `x.__class__`), and — through the calls the value is computed by, as far as the
+    call graph resolves them to one function of the repository — the results a callee keeps from earlier calls
+    (a result-keeping decorator) or reads from such state itself.  Module-level functions, classes, imports and
+    constants that are never rebound are not state.  Returns the sorted list of such names."""
     mod = fa.fi.module
     declared = set()
     for n in ast.walk(fa.node):
@@ -646,7 +821,7 @@ def outliving_state_reads(fa, expr, at):
                 continue
             if name in declared or name in rebound:
                 out.add(name)
-            elif name in mod.assigns and not _immutable_constant(mod.assigns[name]):
+            elif name in mod.assigns and not _frozen_table(mod.assigns[name]):
                 out.add(name)
         elif kind == "attr":
             parts = name.split(".")
@@ -654,7 +829,7 @@ def outliving_state_reads(fa, expr, at):
                 out.add(name)
             elif parts[0] in mod.classes and len(parts) > 1:
                 ci = mod.classes[parts[0]]
-                if parts[1] not in ci.methods and parts[1] not in getattr(ci, "nested", {}):
+                if parts[1] not in ci.methods and parts[1] not in getattr(ci, "nested", {}) and not _class_constant(mod, ci, parts[1]):
                     out.add(name)
     # an attribute read off the class of an object: type(x).attr
     try:
@@ -665,6 +840,41 @@ def outliving_state_reads(fa, expr, at):
         if isinstance(n, ast.Attribute) and isinstance(n.value, ast.Call) and isinstance(n.value.func, ast.Name) and n.value.func.id == "type" \
                 and len(n.value.args) == 1 and not (n.attr.startswith("__") and n.attr.endswith("__")):
             out.add("type(...)." + n.attr)
+    # what the callees keep between calls
+    called = [n for n in ast.walk(full) if isinstance(n, ast.Call)]
+    for a in sorted(atoms):
+        # calls on any of the definitions the value can come from (a local assigned on several branches is not
+        # expanded above, the dependency closure follows all of them)
+        if a.startswith("callq:"):
+            try:
+                called.append(ast.Call(func=ast.parse(a[len("callq:"):], mode="eval").body, args=[], keywords=[]))
+            except SyntaxError:
+                pass
+    for n in called:
+        if _depth <= 0:
+            continue
+        try:
+            cands, _how = fa.ck.cg.resolve(n, fa.fi)
+        except (AnalysisError, RecursionError, AttributeError, KeyError):
+            continue
+        if len(cands) != 1 or cands[0].node is fa.fi.node or cands[0].qual in _seen:
+            continue
+        cal = cands[0]
+        if cal.parent is not None and (cal.parent.node is fa.fi.node or cal.parent.qual == fa.fi.qual):
+            continue    # a function defined inside this one is made anew by every call: what it keeps ends with the call
+        kept = keeps_results(cal)
+        if kept is not None:
+            out.add("the results %s keeps between calls (@%s)" % (cal.qual, kept))
+            continue
+        try:
+            cfa = FA(fa.ck, cal)
+            for r in cfa.returns():
+                if r.value is None or not cfa.nodes(r):
+                    continue
+                for nm in outliving_state_reads(cfa, r.value, cfa.nodes(r)[0], _depth - 1, _seen + (fa.fi.qual, cal.qual)):
+                    out.add(nm if " keeps between calls" in nm else "%s, read by %s" % (nm, cal.qual))
+        except (AnalysisError, RecursionError):
+            continue
     return sorted(out)
 
 
@@ -1049,8 +1259,13 @@ def _mev(e, env, frame):
             same = False    # something truthy is not None
         elif isinstance(l, _Tok) or isinstance(r, _Tok):
             if l is not r:
-                return _UNKNOWN
-            same = True
+                tok, other = (l, r) if isinstance(l, _Tok) else (r, l)
+                fact = env.get("?none:" + tok.name) if other is None else None
+                if fact is None:
+                    return _UNKNOWN
+                same = fact     # the path has already taken a test of this very value against None one way
+            else:
+                same = True
         elif isinstance(e.ops[0], (ast.Is, ast.IsNot)) or isinstance(l, (_Rec, _CtxVal)) or isinstance(r, (_Rec, _CtxVal)):
             same = l is r
         else:
@@ -1074,12 +1289,12 @@ class ModelRun:
     the way the path takes them, with the locals the path has bound (values of the model; anything else unknown, and
     an unknown test leaves both branches open).  `envs[n]` lists the bindings with which CFG node n is entered."""
 
-    def __init__(self, fa, frame, ctx_param, cap=20000):
+    def __init__(self, fa, frame, ctx_param, cap=20000, seed=None):
         self.fa, self.frame = fa, frame
         cfg = fa.cfg
         self.envs = {}
         seen = set()
-        work = [(cfg.entry, {ctx_param: _CtxVal({})})]
+        work = [(cfg.entry, dict(seed or {}, **{ctx_param: _CtxVal({})}))]
         while work:
             n, env = work.pop()
             key = (n, tuple(sorted((k, _vkey(v)) for k, v in env.items())))
@@ -1125,6 +1340,7 @@ class ModelRun:
                             env.pop(k, None)
                         else:
                             env[k] = v
+            asked = self._none_test(a, env) if nd.kind == "test" and t is _UNKNOWN and not isinstance(fa.pm.get(a), ast.While) else None
             for (d, l) in cfg.succ[n]:
                 if raised and l != "exc":
                     continue
@@ -1135,7 +1351,27 @@ class ModelRun:
                         continue
                     if t is False and l == "T":
                         continue
+                if asked is not None and l in ("T", "F"):
+                    # an opaque value tested against None: each branch remembers which way it went, so that a second test
+                    # of the same value further down agrees with the first
+                    env2 = dict(env)
+                    env2["?none:" + asked[0].name] = asked[1] if l == "T" else not asked[1]
+                    work.append((d, env2))
+                    continue
                 work.append((d, env))
+
+    def _none_test(self, e, env):
+        """(opaque value, is-None when the test holds) for a test `X is None` / `X is not None` (== / != alike, `not`
+        around it) on a value of which nothing is known yet; else None"""
+        pol = True
+        while isinstance(e, ast.UnaryOp) and isinstance(e.op, ast.Not):
+            e, pol = e.operand, not pol
+        if isinstance(e, ast.Compare) and len(e.ops) == 1 and isinstance(e.ops[0], (ast.Is, ast.IsNot, ast.Eq, ast.NotEq)):
+            l, r = _mev(e.left, env, self.frame), _mev(e.comparators[0], env, self.frame)
+            tok, other = (l, r) if isinstance(l, _Tok) else (r, l)
+            if isinstance(tok, _Tok) and other is None and tok is not INHERITED_CA and ("?none:" + tok.name) not in env:
+                return (tok, pol == isinstance(e.ops[0], (ast.Is, ast.Eq)))
+        return None
 
     def reached(self, nodes):
         return any(n in self.envs for n in nodes)
@@ -1183,6 +1419,66 @@ def _default_or(fa, e, at, param, default):
             cs = conds(fa, ad[0].node)
             return cs in ({frozenset({(param + " is None", True)})}, {frozenset({(param, False)})})
     return False
+
+
+def _bind_pattern(target, value, out):
+    """bind the names of an unpacking target to the parts of a display: `name, (a, b)` against `'k', (x, 'y')`"""
+    if isinstance(target, ast.Name):
+        out[target.id] = value
+        return True
+    if isinstance(target, (ast.Tuple, ast.List)) and isinstance(value, (ast.Tuple, ast.List)) and len(target.elts) == len(value.elts) \
+            and not any(isinstance(x, ast.Starred) for x in list(target.elts) + list(value.elts)):
+        return all(_bind_pattern(t, v, out) for t, v in zip(target.elts, value.elts))
+    return False
+
+
+def spread_entries(fa, e, at):
+    """{constant key: value expression} of a mapping that is spread into a call (`**m`), when it can be written out: a
+    display / dict(k=v) with constant keys, or a dict comprehension over the items of such a display (a table of the
+    arguments), each entry written out with the table row substituted and `getattr(x, 'name')` read as `x.name`.
+    None when it cannot."""
+    try:
+        x = strip_cast(fa.expand(e, at))
+    except AnalysisError:
+        x = strip_cast(e)
+    sh = map_shape(x) if not isinstance(x, ast.DictComp) else None
+    if sh is not None and sh[0] is None and not sh[2]:
+        return dict(sh[1])
+    if not (isinstance(x, ast.DictComp) and len(x.generators) == 1 and not x.generators[0].ifs):
+        return None
+    g = x.generators[0]
+    it = strip_cast(g.iter)
+    rows = None
+    if isinstance(it, ast.Call) and A.call_attr(it) == "items" and not it.args and isinstance(strip_cast(A.call_recv(it)), ast.Dict):
+        tb = strip_cast(A.call_recv(it))
+        if all(k is not None for k in tb.keys):
+            rows = [ast.Tuple(elts=[k, v], ctx=ast.Load()) for k, v in zip(tb.keys, tb.values)]
+    elif isinstance(it, (ast.Tuple, ast.List)):
+        rows = list(it.elts)
+    if rows is None:
+        return None
+    out = {}
+    for row in rows:
+        env = {}
+        if not _bind_pattern(g.target, row, env):
+            return None
+
+        class T(ast.NodeTransformer):
+            def visit_Name(self, n):
+                return copy.deepcopy(env[n.id]) if isinstance(n.ctx, ast.Load) and n.id in env else n
+
+            def visit_Call(self, n):
+                self.generic_visit(n)
+                if isinstance(n.func, ast.Name) and n.func.id == "getattr" and len(n.args) == 2 and not n.keywords and A.const_str(n.args[1]) \
+                        and A.const_str(n.args[1]).isidentifier():
+                    return ast.Attribute(value=n.args[0], attr=A.const_str(n.args[1]), ctx=ast.Load())
+                return n
+
+        k = A.const_str(T().visit(copy.deepcopy(x.key)))
+        if k is None or k in out:
+            return None
+        out[k] = ast.fix_missing_locations(T().visit(copy.deepcopy(x.value)))
+    return out
 
 
 def reserved_key_clause(fl):
@@ -1332,17 +1628,25 @@ def check(ck):
     ck.ob(R1, init.key(None, "context-args-of-this-call"), oko, "self.context_args is made from the context args given to this construction only" if oko else why_o,
           init.where(st_o) if st_o is not None else init.where())
     rl = FA(ck, "runner_local.memento_run_local")
-    body = rl.one(rl.calls("_filter_call"), "_filter_call (function body) call")
+    bfa, body = body_call(ck, rl)
     p_ref = "fn_reference_with_args" if "fn_reference_with_args" in rl.fi.params else (rl.fi.params[1] if len(rl.fi.params) > 1 else "")
-    okb = not body.args and len(body.keywords) == 1 and body.keywords[0].arg is None
+    okb = not body.args and len(body.keywords) == 1 and body.keywords[0].arg is None and bool(bfa.nodes(body))
     if okb:
-        # what is spread into the call: the effective kwargs themselves or a plain copy of them
-        e_ = strip_cast(rl.expand(body.keywords[0].value, rl.nodes(body)[0]))
+        # what is spread into the call: the effective kwargs of the reference this invocation was given (read off the
+        # parameter, or off a record / method object of the invocation that was constructed with it), or a plain copy
+        at_b = bfa.nodes(body)[0]
+        e_ = strip_cast(resolve_object_fields(ck, bfa, bfa.expand(body.keywords[0].value, at_b), at_b))
         while is_copy_of(e_) is not None:
             e_ = strip_cast(is_copy_of(e_))
-        okb = A.norm(e_) == p_ref + ".effective_kwargs" and all(d.kind == "param" for d in rl.df.reaching(rl.nodes(body)[0], p_ref))
+        okb = A.norm(e_) == p_ref + ".effective_kwargs"
+        if bfa is rl:
+            okb = okb and all(d.kind == "param" for d in rl.df.reaching(at_b, p_ref))
+        else:
+            # a free variable of the inner function: the parameter of memento_run_local, which nothing re-binds
+            okb = okb and p_ref not in bfa.fi.params and not bfa.df.reaching(at_b, p_ref) \
+                and not any(isinstance(n_, ast.Name) and n_.id == p_ref and isinstance(n_.ctx, (ast.Store, ast.Del)) for n_ in ast.walk(rl.node))
     ck.ob(R1, rl.key(body, "body-args"), okb, "the body receives exactly the effective kwargs (no context args)" if okb else
-          "the body is not called with **fn_reference_with_args.effective_kwargs", rl.where(body))
+          "the body is not called with **fn_reference_with_args.effective_kwargs", bfa.where(body))
 
     # ---- R2
     rb = FA(ck, "runner_local.memento_run_batch")
@@ -1443,7 +1747,31 @@ def check(ck):
             ok3 = all(x is not None for x in a) and [A.norm(x) for x in a[:3]] == [cv + ".fn_reference", cv + ".args", cv + ".kwargs"] \
                 and is_inherited(a[3], at)
         # built after the update, on every inheriting path, and it is what is dispatched
-        ok3 = ok3 and all(rb.cfg.must_pass(un, i) for i in through)
+        _same = []
+
+        def same_cases():
+            # the list is rebuilt in exactly the cases in which the context args are inherited, and after that: read off the
+            # path conditions (the two steps may sit under two tests of the same thing — the call's own context args taken
+            # before and after updates that do not touch them)
+            if not _same:
+                from .keys import dnf_equivalent
+                b_ = set()
+                for i_ in through:
+                    b_ |= conds(rb, i_)
+                _same.append(dnf_equivalent(conds(rb, un[0]), b_) is True and all(i_ in rb.cfg.reach(un, include_start=False) for i_ in through)
+                             and not any(set(un) & rb.cfg.reach([i_], include_start=False) for i_ in through))
+            return _same[0]
+
+        def rebuilt_whenever_inherited(dn_, cx_, name_):
+            # the function walked with a calling frame: wherever the dispatch is reached with a context that holds the
+            # INHERITED context args, the list handed over is no longer the one the function was given
+            given = _Tok("the references the function was given")
+            run_ = ModelRun(rb, _model_frames()["free"], P_CTX, seed={P_REFS: given})
+            probe = ast.Attribute(value=ast.Attribute(value=cx_, attr="recursive", ctx=ast.Load()), attr="context_args", ctx=ast.Load())
+            envs_ = run_.envs.get(dn_, [])
+            return bool(envs_) and not any(_mev(probe, env_, run_.frame) is INHERITED_CA and env_.get(name_) is given for env_ in envs_)
+
+        ok3 = ok3 and (all(rb.cfg.must_pass(un, i) for i in through) or same_cases())
         if ok3:
             after = rb.cfg.reach(un, include_start=False)
             for d in disps:
@@ -1455,7 +1783,9 @@ def check(ck):
                         ok3 = False
                         continue
                     hn = {i for (i, nm) in holders if nm == r.id}
-                    ok3 = ok3 and bool(hn) and rb.cfg.always_reaches(un[0], hn, [dn]) and rb.cfg.always_reaches(un[0], through, [dn])
+                    ok3 = ok3 and bool(hn) and ((rb.cfg.always_reaches(un[0], hn, [dn]) and rb.cfg.always_reaches(un[0], through, [dn]))
+                                                or (same_cases() and any((df.node, df.name) in holders for df in rb.df.reaching(dn, r.id))
+                                                    and A.arg_or_kw(d, 0, "context") is not None and rebuilt_whenever_inherited(dn, A.arg_or_kw(d, 0, "context"), r.id)))
                     ok3 = ok3 and all((df.node, df.name) in holders or df.kind == "param" or df.node not in after for df in rb.df.reaching(dn, r.id))
     ck.ob(R2, rb.key(None, "rebuild"), bool(ok3), "references are rebuilt with the inherited context args" if ok3 else
           "after inheriting, the call references are not rebuilt from (fn_reference, args, kwargs, updated context args)", rb.where())
@@ -1470,7 +1800,15 @@ def check(ck):
                 okd = False
                 continue
             dp = rb.deps(cx, dn)
-            okd = okd and ("param:" + P_CTX) in dp and ("param:" + P_REFS) in rb.deps(rf, dn)
+            rdp = set(rb.deps(rf, dn))
+            made_ = origin(rb, rf, dn)
+            if made_ is not None:
+                # a list that is created empty and filled: what is put into it is what it is made of
+                for c_ in rb.calls():
+                    if A.call_attr(c_) in ("append", "extend", "insert") and A.call_recv(c_) is not None and rb.nodes(c_) and c_.args \
+                            and same_def(origin(rb, A.call_recv(c_), rb.nodes(c_)[0]), made_):
+                        rdp |= rb.deps(c_.args[-1], rb.nodes(c_)[0])
+            okd = okd and ("param:" + P_CTX) in dp and ("param:" + P_REFS) in rdp
             if dn in after:
                 okd = okd and "call:update_recursive" in dp and "const:'context_args'" in dp
         ck.ob(R2, rb.key(d, "dispatch-args"), okd, "the updated context and references are dispatched" if okd else
@@ -1613,6 +1951,13 @@ def check(ck):
     cw = FA(ck, "memento.MementoFunction.clone_with")
     ctor = cw.one(cw.calls("MementoFunction"), "MementoFunction(...) in clone_with")
     kc = A.kwarg(ctor, "context")
+    if kc is None and cw.nodes(ctor):
+        # the constructor arguments may be handed over as a spread mapping written from a table of (requested, fallback) rows
+        for k_ in ctor.keywords:
+            if k_.arg is None:
+                ent = spread_entries(cw, k_.value, cw.nodes(ctor)[0])
+                if ent is not None and "context" in ent:
+                    kc = ent["context"]
     okk = kc is not None and "context" in cw.fi.params and _default_or(cw, kc, cw.nodes(ctor)[0], "context", "self.context")
     ck.ob(R3, cw.key(ctor, "context-param"), okk, "clone_with passes the given context to the clone" if okk else
           "clone_with does not pass `context or self.context` to the clone", cw.where(ctor))
@@ -1657,3 +2002,20 @@ def check(ck):
 
     # ---- R5
     sibling_reference_sites(ck, R5)
+
+    # ---- R6: the calling frame is what nested calls inherit context args and the prevent flag from, so a frame must not
+    # outlive its invocation: once it is pushed, every way out of memento_run_local (an exception that memento lets
+    # escape included) passes the pop, and what is pushed is the frame built for this invocation.  This is the push /
+    # pop typestate of the call stack, decided by reachability on the graph in which every call may raise
+    # (c10._r2: try/finally, a scope class, an exit stack, a generator context manager written out are all read).
+    R6 = "C16.R6"
+    ck.rule(R6, "the frame that carries a call's recursive context is on the thread's call stack for the duration of that call "
+                "only: once pushed, no way out of memento_run_local (exceptions included) misses the pop", 3)
+    from .c10 import _r2 as frame_typestate
+    n0 = len(ck.obs)
+    ck.run(frame_typestate, ck, R6)
+    for o in ck.obs[n0:]:
+        if o.rule == R6 and o.verdict == "violation":
+            o.msg += (": the frame stays on the thread's call stack with its recursive context, so the next call on that thread takes it for "
+                      "its caller - it inherits the finished call's context args (and is keyed and stored under them) or is refused because "
+                      "further calls were prevented")
